@@ -18,7 +18,7 @@ func init() {
 			"a migration order is stored only after the validator returned nil, whose summary holds Verify(registered GCA key, order.SigningBytes(), order.Signature) and which rejects any inner server not signed by the order's new GCA. " +
 			"CLIENT SIDE (with C10 and C11): the GCA key, device id and server map are assigned only values returned by the sync parser, under its err == nil result, and only in the branch where the new GCA is non-zero and differs from the current one; " +
 			"each of the three assignments is preceded, on every path, by a successful write of the same value to the file its loader reads (gcaPubKey.dat, shortID.dat little-endian, gcaServers.dat via the map encoder), so a restart resumes with what was adopted. " +
-			"COVER the signing bytes of AuthorizedServer and EquipmentMigration cover every field (elements of NewServers through their own Serialize) and cut exactly the trailing signature; the parser-acceptance rules of C10 and the MERGE/PERSIST rules of C11 for the client server map are re-run here because this property states them too. NOT decided: sequences of posts as such; that the three client files are updated atomically with respect to a crash (the code documents that risk itself).",
+			"COVER the signing bytes of AuthorizedServer and EquipmentMigration cover every field (elements of NewServers through their own Serialize) and cut exactly the trailing signature; the parser-acceptance rules of C10 and the MERGE/PERSIST rules of C11 for the client server map are re-run here because this property states them too. what the client persists it also adopts in memory before releasing the lock; no field of a listed server entry is changed in place. NOT decided: sequences of posts as such; that the three client files are updated atomically with respect to a crash (the code documents that risk itself).",
 		Assumptions: append([]string{"glow.Verify is sound (trusted)"}, baseAssumptions...),
 		Run:         runC17,
 	})
@@ -148,6 +148,12 @@ func serverListStore(c *an.Ctx, fn *ssa.Function, fi *an.FuncInfo, st *ssa.Store
 		}
 	}
 	if entry == nil {
+		// a store into a FIELD of an element: the entry is altered piecemeal, so the GCA signature kept in the entry no
+		// longer covers what the entry says (it cannot be re-verified by the devices that receive it)
+		if strings.Contains(cls.String(), "servers[].") {
+			c.Violated("AUTH", fn, st.Pos(), an.KeyOf(fn, "list-write-piecemeal:"+cls.String()), "a field of a listed server entry is changed in place ("+cls.String()+"): entries enter the list only whole, together with the GCA signature over them", "the stored entry would no longer verify under the GCA key")
+			return
+		}
 		c.Undecided("AUTH", fn, st.Pos(), an.KeyOf(fn, "list-write-shape"), "the value written to the server list is neither an element assignment nor append(list, entry)", "shape not recognised")
 		return
 	}
@@ -419,7 +425,52 @@ func clientAdoption(c *an.Ctx) {
 		}
 	}
 	c.Count("ADOPT", n)
-	c.Floor("ADOPT", 3)
+	c.Floor("ADOPT", 2)
+	// the converse: whatever identity file a (non-construction) function rewrites, it also adopts in memory on every
+	// path that wrote it, so that memory and disk do not disagree until the next restart
+	fields := map[string]string{"gcaPubKey.dat": "gcaPubKey", "shortID.dat": "shortID", "gcaServers.dat": "gcaServers"}
+	for _, fn := range p.FuncsIn("client") {
+		if construction[fn] {
+			continue
+		}
+		fi := p.Info(fn)
+		for _, op := range p.FileOps(fn) {
+			field, tracked := fields[op.File]
+			if !tracked || (op.Kind != "writefile" && op.Kind != "write" && op.Kind != "open-trunc" && op.Kind != "create") {
+				continue
+			}
+			if op.File == "gcaServers.dat" {
+				continue // the map is mutated in place and rewritten afterwards (MERGE / PERSIST rules)
+			}
+			adopted := false
+			for _, b := range fn.Blocks {
+				for _, in := range b.Instrs {
+					st, ok := in.(*ssa.Store)
+					if !ok {
+						continue
+					}
+					if fa, ok := st.Addr.(*ssa.FieldAddr); ok && namedOfPtr(fa.X.Type()) == "Client" && fieldNameOf(fa) == field {
+						if an.Dominates(op.Call, st) {
+							// and the store is on every path from the write to the function's exits or unlock
+							if mustPassThrough(op.Call, st, func(i ssa.Instruction) bool {
+								if cc, ok := i.(*ssa.Call); ok {
+									if id, o, ok := an.LockOp(&cc.Call); ok && id == "Client.mu" && o == "Unlock" {
+										return true
+									}
+								}
+								_, r := i.(*ssa.Return)
+								return r
+							}) {
+								adopted = true
+							}
+						}
+					}
+				}
+			}
+			_ = fi
+			c.Check(adopted, "ADOPT", fn, op.Call.Pos(), an.KeyOf(fn, "adopts-what-it-persists:"+field), "after "+op.File+" is rewritten the client also adopts the new "+field+" in memory before it releases the lock (what is persisted is what was adopted, without waiting for a restart)", "store to Client."+field+" on every path after the write")
+		}
+	}
 }
 
 func parserSuccessDominates(p *an.Program, fi *an.FuncInfo, at ssa.Instruction, parser *ssa.Function) bool {
